@@ -161,16 +161,32 @@ _counter = [0]
 def run_shard(sh, n):
     gcfg = gen.GenCfg(cut=False, lookahead=True, skipto=False)
 
+    def passthrough_rules(rnd):
+        """a rule that hands on another rule's dict/node as its own value, inside an alternative that fails later, before another alternative
+        asks for the same sub-rule at the same position (so the value comes back from the memos)"""
+        name = ('seq', (('named', 'id', ('pat', '[a-c]+')),)) if rnd.random() < 0.7 else ('seq', (('named', 'id', ('pat', '[a-c]+')), ('opt', ('named', 'w', ('tok', '+')))))
+        lv = rnd.choice([('ovr', ('call', 'name')), ('call', 'name'), ('seq', (('ovr', ('call', 'name')), ('star', ('tok', ',')))), ('grp', ('call', 'name'))])
+        first = ('seq', (('named', 'l', ('call', 'lv')), ('tok', 'b'), ('named', 'r', ('call', 'name'))))
+        second = rnd.choice([('seq', (('named', 'f', ('call', 'name')), ('tok', 'a'))), ('call', 'name'), ('seq', (('call', 'name'), ('tok', 'a')))])
+        third = ('named', 'x', ('call', 'lv'))
+        stmt = ('alt', (first, second, third)) if rnd.random() < 0.6 else ('alt', (first, second))
+        rules = [('stmt', ('seq', (('star', ('tok', ',')), stmt)) if rnd.random() < 0.3 else stmt), ('lv', lv), ('name', name)]
+        return rules
+
     def body(rnd):
         reset_tatsu_state()
-        rules = gen.gen_rules(rnd, gcfg)
-        # make sure names exist: add a named element to some rule bodies
-        rules2 = []
-        for nm, x in rules:
-            if rnd.random() < 0.6:
-                x = ('seq', (('named', 'w', ('tok', rnd.choice(['a', 'b', '+']))), x)) if rnd.random() < 0.5 else ('seq', (x, ('named', 'w', ('tok', rnd.choice(['a', 'b', '+'])))))
-            rules2.append((nm, x))
-        rules = rules2
+        passthrough = rnd.random() < 0.2
+        if passthrough:
+            rules = passthrough_rules(rnd)
+        else:
+            rules = gen.gen_rules(rnd, gcfg)
+            # make sure names exist: add a named element to some rule bodies
+            rules2 = []
+            for nm, x in rules:
+                if rnd.random() < 0.6:
+                    x = ('seq', (('named', 'w', ('tok', rnd.choice(['a', 'b', '+']))), x)) if rnd.random() < 0.5 else ('seq', (x, ('named', 'w', ('tok', rnd.choice(['a', 'b', '+'])))))
+                rules2.append((nm, x))
+            rules = rules2
         asmodel = rnd.random() < 0.4
         types = {}
         if asmodel:
@@ -200,7 +216,7 @@ def run_shard(sh, n):
             d, info = check(rules, types, start, text, asmodel, buffer, model, deco, comments)
             sh.case(('pi', gtext, text, asmodel, buffer), info.get('nontrivial', False),
                     ['parseinfo', 'pi:asmodel' if asmodel else 'pi:ast', 'pi:buffer' if buffer else 'pi:textlines', f'pi:ref:{info.get("ref")}',
-                     'pi:with-nodes' if info.get('nodes') else 'pi:no-dict-or-node'] + (['pi:nostak-rules'] if deco else []) + (['pi:comments'] if comments else []),
+                     'pi:with-nodes' if info.get('nodes') else 'pi:no-dict-or-node'] + (['pi:nostak-rules'] if deco else []) + (['pi:comments'] if comments else []) + (['pi:pass-through rule + backtracking'] if passthrough else []),
                     sample=dict(grammar=gtext, input=text, asmodel=asmodel, dicts_or_nodes=info.get('nodes')))
             if d is not None:
                 sh.fail('pi:' + d['bucket'], dict(kind='parseinfo', rules=rules, types=types, start=start, input=text, asmodel=asmodel, buffer=buffer, deco=deco, comments=comments), d)
